@@ -5,10 +5,13 @@ package main
 // single-point mutation computed by construction.
 
 import (
+	"context"
 	"fmt"
 	"strings"
 
 	pipeline "github.com/buildkite/go-pipeline"
+
+	"github.com/buildkite/go-pipeline/signature"
 
 	"verifharness/core"
 	"verifharness/dump"
@@ -93,6 +96,20 @@ func runC01(c *ctx) error {
 		}
 		done++
 		desc := map[string]any{"document": string(src), "step_index": idx, "repo": repo, "pipeline_env": penv, "key": k.kind}
+		if iter%4 == 1 && !hasUnknownStep(p.Steps) {
+			// the way a pipeline upload signs: SignSteps over the whole step list (groups recursively) with the same
+			// pipeline env. The signature it leaves on this step must cover what Sign covers for it, and it is the
+			// one the tamperings below are judged against.
+			if err := signature.SignSteps(context.Background(), p.Steps, k.signer, repo, signature.WithEnv(penv)); err == nil && st.Signature != nil {
+				c.res.Hist("base.signed-through-SignSteps")
+				c.res.OracleChecks++
+				if strings.Join(st.Signature.SignedFields, ",") != strings.Join(sig.SignedFields, ",") {
+					c.res.Fail(core.OracleFailure{What: "SignSteps signs a different field list for a step than Sign does with the same pipeline env", Input: desc,
+						Got: strings.Join(st.Signature.SignedFields, ","), Want: strings.Join(sig.SignedFields, ",")})
+				}
+				sig = st.Signature
+			}
+		}
 		signedEnvName := ""
 		for _, kk := range sortedKeysS(penv) {
 			if _, shadow := st.Env[kk]; !shadow {
